@@ -291,8 +291,8 @@ def emit_cases(path: Path, cases):
 def main(tier: str) -> int:
     run = C.Run(PID, tier)
     proofs_ok = run.check_proofs(TARGETS, extra_tb=[
-        "CPython heapq modelled by a Gallina transcription of Lib/heapq.py (EventList.Model.heapq); "
-        "heap_contract for it is proved in EventList/HeapqProofs.v when present, else a hypothesis of the refinement theorems",
+        "CPython heapq modelled by a Gallina transcription of Lib/heapq.py (EventList.Model.heapq): heap_contract is PROVED "
+        "for the transcription (EventList/HeapqProofs.v); that CPython's C heapq behaves like the transcription is validated by the correspondence only",
         "times restricted to dyadic values (exact in binary64) represented as Z*2^-10; NaN times excluded",
     ])
     C.use_repo_sources()
